@@ -141,6 +141,19 @@ def gen(rng, tier):
     for v in em + vs:
         signed_vals += [v, -v]
     signed_vals += [-(1 << j) for j in range(0, 200 if not thorough else 700)]
+    # the "-2^(8k-1) needs no extra byte" exception must look at ALL lower bits: 2^(8k-1) + 2^m for every m,
+    # and + a lower part with a long trailing-zero run, across digit boundaries
+    for k in (list(range(1, 26)) + [32, 33] + ([40, 64, 65, 128] if thorough else [])):
+        e = 8 * k - 1
+        ms = range(0, e) if (k <= 12 or thorough) else list(range(0, e, 7)) + [e - 1, e - 2, e - 8, e - 9, 63, 64, 65, 127, 128]
+        for m in ms:
+            if 0 <= m < e:
+                signed_vals += [-((1 << e) + (1 << m)), (1 << e) + (1 << m)]
+        for _ in range(3):
+            tz = rng.randrange(0, e)
+            low = (rng.randrange(1, 1 << max(1, e - tz)) << tz) % (1 << e)
+            if low:
+                signed_vals += [-((1 << e) + low), -((1 << e) - low)]
     for v in signed_vals:
         reqs.append("C09 i.to_signed_bytes_le %s" % wi(v))
         reqs.append("C09 i.to_signed_bytes_be %s" % wi(v))
